@@ -1,0 +1,18 @@
+//go:build verif
+
+package etcdv3
+
+import (
+	"github.com/projecteru2/core/store/etcdv3/meta"
+	"github.com/projecteru2/core/types"
+	"github.com/projecteru2/core/utils"
+)
+
+// NewWithKV builds a Mercury over an injected meta.KV (simulation seam).
+func NewWithKV(config types.Config, kv meta.KV) (*Mercury, error) {
+	pool, err := utils.NewPool(config.MaxConcurrency)
+	if err != nil {
+		return nil, err
+	}
+	return &Mercury{KV: kv, config: config, pool: pool}, nil
+}
